@@ -50,6 +50,11 @@ func NewWorld(e Era) *World {
 		Fee:     BaseFee,
 		Signers: []Key{w.Payer},
 	}
+	if e == Shelley {
+		// ttl is a mandatory field of Shelley bodies (an absent / zero ttl is
+		// only valid at slot 0): the baseline carries one far in the future
+		w.Spec.TTL = U64(1 << 40)
+	}
 	return w
 }
 
